@@ -95,18 +95,57 @@ def decorate(rng, ap):
                     d.pop("gap", None)
 
 
+def single_option_family(ctx, n):
+    """a predecessor and a successor on different resources, the successor's resource busy at first with a
+    higher-priority task or a blocking booking, and ONE option on the edge (each option alone): the option decides the
+    dates, so a spelling that drops it shows"""
+    rng = ctx.rng
+    out = []
+    for i in range(n):
+        ap = {"start": MON_, "dur": ("w", 3), "G": 3600, "tz": "Etc/UTC", "vac": [], "gleaves": [], "shifts": {},
+              "resources": [{"id": "r0", "eff": "1.0", "leaves": []}, {"id": "r1", "eff": "1.0", "leaves": []}], "tasks": [],
+              "_family": "singleopt", "_i": i, "_always_precedes": True}
+        opt = rng.choice(["maxgap", "maxgap", "gaplen", "gap", "onstart", "onend"])
+        d = {"to": ["c", "a"] if i % 2 else ["a"], "style": rng.choice(["abs", "rel"])}
+        if opt in ("maxgap", "gaplen", "gap"):
+            d[opt] = rng.choice([60, 120, 180])
+        else:
+            d[opt] = True
+        a = {"id": "a", "effort": rng.choice([120, 180, 240]), "alloc": ["r0"]}
+        b = {"id": "b", "effort": rng.choice([120, 240]), "alloc": ["r1"]}
+        blk = {"id": "blk", "effort": rng.choice([360, 480, 600]), "alloc": ["r1"], "prio": 900}
+        if opt == "maxgap" or rng.random() < 0.3:
+            # the successor's resource is blocked by a booking at first (what maxgapduration looks at)
+            ap["resources"][1]["bookings"] = [(MON_ + 9 * 3600, 360, "6h")]
+            blk["alloc"] = ["r0"]
+            blk["prio"] = 100
+        key = rng.choice(["deps", "precedes"])
+        if key == "deps":
+            b["deps"] = [d]
+        else:
+            d["to"] = ["c", "b"] if i % 2 else ["b"]
+            a["precedes"] = [d]
+        ap["tasks"] = [{"id": "c", "kids": [a, b]}, blk] if i % 2 else [a, b, blk]
+        out.append(ap)
+    return out
+
+
+MON_ = projects.MON
+
+
 def rw_precedes(rng, ap):
     """express 'b depends a {opts}' as 'a precedes b {opts}' and the other way round"""
     ap2 = copy.deepcopy(ap)
     idx = projects.task_index(ap2)
     moves = []
+    always = bool(ap.get("_always_precedes"))
     for p, n in idx.items():
         for d in list(n.get("deps", []) or []):
-            if rng.random() < 0.6:
+            if always or rng.random() < 0.6:
                 n["deps"].remove(d)
                 moves.append((tuple(d["to"]), {"to": list(p), "style": d.get("style", "abs"), **{k: d[k] for k in OPTS if k in d}}, "precedes"))
         for d in list(n.get("precedes", []) or []):
-            if rng.random() < 0.6:
+            if always or rng.random() < 0.6:
                 n["precedes"].remove(d)
                 moves.append((tuple(d["to"]), {"to": list(p), "style": d.get("style", "abs"), **{k: d[k] for k in OPTS if k in d}}, "deps"))
     for src, d, key in moves:
@@ -238,9 +277,13 @@ def run(ctx):
         base += gens.family(ctx, fam, ctx.n(nq, nt))
     for ap in base[::2]:
         decorate(ctx.rng, ap)
+    base += single_option_family(ctx, ctx.n(40, 300))
     texts, metas, renamed = [], [], []
     for ap in base:
-        for name in ctx.rng.sample(sorted(REWRITES), 3):
+        names = ctx.rng.sample(sorted(REWRITES), 3)
+        if ap.get("_always_precedes") and "precedes" not in names:
+            names[0] = "precedes"
+        for name in names:
             if name == "shift" and not any(n.get("shift") or n.get("hours") is not None for _, n in projects.walk(ap["resources"])):
                 continue
             t, back = REWRITES[name](ctx.rng, ap)
